@@ -1488,3 +1488,77 @@ pub proof fn lemma_anc_loop_step<T>(s: Seq<Node<T>>, w: Ranks, t: int, moved: No
     }
 }
 
+/// the positions "right after x" and "right before x" are gaps
+pub proof fn lemma_gap_around<T>(s: Seq<Node<T>>, w: Ranks, x: NodeId, r: int)
+    requires
+        links_ok(s),
+        ranked(s, w),
+        0 <= x.idx() < s.len(),
+        s[x.idx()].stamp == x.stamp,
+        !x.stamp.removed(),
+        0 <= r < s.len(),
+        is_root(s, r),
+        r != x.idx(),
+        !in_sub(s, w, r, x.idx()),
+    ensures
+        is_gap(s, s[x.idx()].parent, Some(x), s[x.idx()].next_sibling),
+        is_gap(s, s[x.idx()].parent, s[x.idx()].previous_sibling, Some(x)),
+        not_at(r, s[x.idx()].parent),
+        not_at(r, s[x.idx()].next_sibling),
+        not_at(r, s[x.idx()].previous_sibling),
+        s[x.idx()].parent is Some ==> !in_sub(s, w, r, s[x.idx()].parent->0.idx()),
+{
+    reveal(node_ok);
+    let xi = x.idx();
+    assert(node_ok(s, xi));
+    assert(node_ok(s, r));
+    assert(ranked_at(s, w, xi));
+    if s[xi].next_sibling is Some {
+        let b = s[xi].next_sibling->0.idx();
+        assert(node_ok(s, b));
+        lemma_id_eq(s[b].previous_sibling->0, x);
+    }
+    if s[xi].previous_sibling is Some {
+        let a = s[xi].previous_sibling->0.idx();
+        assert(node_ok(s, a));
+        lemma_id_eq(s[a].next_sibling->0, x);
+    }
+    if s[xi].parent is Some {
+        let p = s[xi].parent->0.idx();
+        assert(node_ok(s, p));
+        assert(in_sub(s, w, r, p) ==> in_sub(s, w, r, xi));
+        assert(in_sub(s, w, r, r));
+        if s[xi].next_sibling is None {
+            lemma_id_eq(s[p].last_child->0, x);
+        }
+        if s[xi].previous_sibling is None {
+            lemma_id_eq(s[p].first_child->0, x);
+        }
+    }
+}
+
+/// a childless node is nobody's ancestor
+pub proof fn lemma_childless_not_anc<T>(s: Seq<Node<T>>, w: Ranks, x: int, y: int)
+    requires
+        links_ok(s),
+        ranked(s, w),
+        0 <= x < s.len(),
+        s[x].first_child is None,
+        x != y,
+    ensures
+        !in_sub(s, w, x, y),
+    decreases (w.depth)(y),
+{
+    if 0 <= y < s.len() && s[y].parent is Some && (w.depth)(s[y].parent->0.idx()) < (w.depth)(y) {
+        let q = s[y].parent->0.idx();
+        lemma_links_live(s, y);
+        if q == x {
+            if !s[y].stamp.removed() {
+                lemma_parent_has_first(s, w, y);
+            }
+        } else {
+            lemma_childless_not_anc(s, w, x, q);
+        }
+    }
+}
+
